@@ -52,6 +52,7 @@ func (k *K) NewAdversary() *Adversary {
 //
 //	own             the adversary's own, honest identity
 //	copied-id       victim's id; public key and signatures are the adversary's
+//	foreign-type    as copied-id, and the identity's type is one the identity provider does not know
 //	copied-block    victim's whole identity block (id, public key, signatures); entry key = victim's
 //	                public key, signature by the adversary's key (does not verify)
 //	block-and-key   victim's whole identity block; entry key swapped to the adversary's key so that
@@ -95,6 +96,10 @@ func (a *Adversary) ForgedIdentity(kind string, victim *idp.Identity) (*idp.Iden
 	case "copied-id":
 		pub := uncompressedPub(priv)
 		return &idp.Identity{ID: victim.ID, PublicKey: pub, Signatures: a.Own.Signatures, Type: victim.Type, Provider: a.Own.Provider}, priv
+	case "foreign-type":
+		// like copied-id, but the identity says it is of a type the provider knows nothing about
+		pub := uncompressedPub(priv)
+		return &idp.Identity{ID: victim.ID, PublicKey: pub, Signatures: a.Own.Signatures, Type: "forged", Provider: a.Own.Provider}, priv
 	case "copied-block", "block-and-key":
 		return &idp.Identity{ID: victim.ID, PublicKey: victim.PublicKey, Signatures: victim.Signatures, Type: victim.Type, Provider: a.Own.Provider}, priv
 	}
